@@ -127,6 +127,12 @@ theorem cstep_newPhrase (sh : Shared D L) : CStep sh (newPhrase env sh) := by
   · exact cstep_panic _ _
   · exact cstep_fuel _
 
+theorem cstep_openPhrase (sh : Shared D L) : CStep sh (openPhrase env sh) := by
+  intro sh' t h
+  rcases openPhrase_cases env h with ⟨h1, _⟩ | ⟨rfl, _⟩
+  · exact cstep_newPhrase env sh sh' t h1
+  · exact ⟨fun c => (by cases c), fun s c => (by cases c)⟩
+
 theorem cstep_newSpecialSymbol (sh : Shared D L) (sym : Sym) : CStep sh (newSpecialSymbol sh sym) := by
   unfold newSpecialSymbol
   simp only
@@ -142,7 +148,7 @@ theorem cstep_startSelecting (sh : Shared D L) : CStep sh (startSelecting env sh
   unfold startSelecting
   repeat' split
   all_goals first
-    | exact cstep_newPhrase env _
+    | exact cstep_openPhrase env _
     | exact cstep_newSpecialSymbol _ _
     | cstep_leaf
 
@@ -150,7 +156,7 @@ theorem cstep_startSelectingOrInputSpace (sh : Shared D L) : CStep sh (startSele
   unfold startSelectingOrInputSpace
   split
   · split
-    · exact cstep_newPhrase env _
+    · exact cstep_openPhrase env _
     · exact cstep_newSpecialSymbol _ _
   · split
     · next he =>
